@@ -103,7 +103,7 @@ func (p *Parser) validateUpdateRequest(update *model.UpdateRequest) error {
 
 	// the reader of the batch files applies this limit to every operation reference: an operation with a longer suffix
 	// would make the whole batch it is written to unreadable
-	if len(update.DidSuffix) > int(p.MaxOperationHashLength) {
+	if uint(len(update.DidSuffix)) > p.MaxOperationHashLength {
 		return fmt.Errorf("did suffix length[%d] exceeds maximum hash length[%d]", len(update.DidSuffix), p.MaxOperationHashLength)
 	}
 
